@@ -32,10 +32,9 @@ THEOREMS = [
     "Typedpy.C18.dHead_starts",
     "Typedpy.C18.isFlat_not_classRef",
     "Typedpy.C18.p1SiteD_names_own_field",
-    "Typedpy.C18.p1SiteD_nested_iff",
+    "Typedpy.C18.p1SiteD_never_nested",
     "Typedpy.C18.p1SiteD_isSome",
     "Typedpy.C18.p1SitesD_name_fields",
-    "Typedpy.C18.p1SitesD_all_named",
     "Typedpy.C18.scalar_is_path",
     "Typedpy.C18.all_scalar_is_path",
     "Typedpy.C18.flat_is_path",
@@ -55,11 +54,41 @@ THEOREMS = [
     "Typedpy.C18.locateZip_sound",
     "Typedpy.C18.sites_point_at_rejections",
     "Typedpy.C18.locate_sound_example",
+    "Typedpy.C18.firstBad_min",
+    "Typedpy.C18.locate_seqOf_first",
     "Typedpy.C18.all_alnum_fieldChars",
     "Typedpy.C18.derive_pre_alnum",
     "Typedpy.C18.derived_name_identOk",
     "Typedpy.C18.derived_class_statement",
     "Typedpy.C18.bracket_class_name_loses_field",
+    "Typedpy.C18.splitLast_none_of_noOcc",
+    "Typedpy.C18.splitLast_prepend",
+    "Typedpy.C18.splitLast_cons_none",
+    "Typedpy.C18.splitLast_semiGot_base",
+    "Typedpy.C18.m23tail_gotLast_exact",
+    "Typedpy.C18.render_parse_gotLast",
+    "Typedpy.C18.render_parse_plain",
+    "Typedpy.C18.render_parse_inverts",
+    "Typedpy.C18.unclean_texts_examples",
+    "Typedpy.C18.noSemi_quoteStr",
+    "Typedpy.C18.dropPre_none_snoc",
+    "Typedpy.C18.noOcc_snoc",
+    "Typedpy.C18.noOcc_quoteStr",
+    "Typedpy.C18.str_value_roundtrip",
+    "Typedpy.C18.typedpy_problem_good",
+    "Typedpy.C18.templates_wellFormed",
+    "Typedpy.C18.fixed_templates_examples",
+    "Typedpy.C18.isOk_dValidated",
+    "Typedpy.C18.isOk_toValueErr",
+    "Typedpy.C18.isOk_mapE",
+    "Typedpy.C18.p1Scalar_eq_deser",
+    "Typedpy.C18.p1_elems_eq_deser",
+    "Typedpy.C18.p1Rejects_homog_eq_deser",
+    "Typedpy.C18.p1SiteD_top",
+    "Typedpy.C18.deep_phase_one_sound",
+    "Typedpy.C18.deserInvalid_nil_ctorOnly",
+    "Typedpy.C18.two_phase_deep_example",
+    "Typedpy.C18.fixed_nested_structure_examples",
 ]
 RULE = ("flat classes (1..5 fields: Integer/Number/Float incl. sign variants, String, Boolean, Enum, and Array/Deque/"
         "Set/Tuple/Map over them) from the type-directed declaration generator; per class a valid argument set, then "
@@ -103,6 +132,9 @@ ASSUMPTIONS = [
     "value and problem TEXTS are universally quantified parameters of the model (not predicted); the driver reads them off the real message; predicted are exception class, class prefix, path, suffix, shape, order and count",
     "deserialization: which supplied fields its first phase rejects (phaseOneInvalid) and where / under which leading path each rejection is raised (p1Sites: named / inner / foreign) are modelled and corresponded; the scratch `_name` of every inner Field instance is an INPUT of the model, observed by the harness just before the call; value / problem texts after the head are not predicted. The oracle accepts a known finding only at the site kind where the Lean model places it (never by message text, never by probing the code under test)",
     "PYTHONHASHSEED=0; the class dump lists fields in the real signature order",
+    "deserialization of classes outside the flat domain: accept / reject, exception class and the deserialized constructor arguments come from Lean `deser` (Sem/Deser.lean) run on the class dump in DEFINITION order (the order construct_fields_map visits fields at every level); the heads (`dHead`) are the scratch-independent wrapper guarantees; keep_undefined is passed as the entry point passes it",
+    "the theorems' hypothesis on texts (`goodTexts`: non-empty problem where the shape puts it, not starting with 'G' / ';') is checked on every real constructor message; membership of the problem text in typedpy's templates ('Expected …', 'Does not match regular expression: …') is recorded as evidence only, so a harmless rewording is not an alarm",
+    "class names: the message heads carry the real class name; for classes typedpy derives (Partial / AllFieldsRequired / Extend / Omit / Pick) the Lean model `derivedName` predicts whether the name stays in [\\w.]+ and only that abstraction is compared",
 ]
 TRUSTED_EXTRA = [
     "harness/suites/errors.py: to_doc / lift (document <-> constructor-argument correspondence for flat fields), names_field (path-names-field relation) and the finding classifier",
@@ -131,9 +163,11 @@ def judge(case, impl, model):
         import json
         return "dump(build(decl)) != decl: " + json.dumps(impl["abstraction_mismatch"])[:800], []
     msg = None
-    if case.get("via") and model.get("clsName") != impl.get("cls_name_real"):
-        msg = (f"class name: typedpy calls the class {impl.get('cls_name_real')!r}, the model (Lean derivedName) "
-               f"{model.get('clsName')!r} for {case['via']} of {case['cls']['name']!r}")
+    if case.get("via") and model.get("clsNameWordModel") is not None and \
+            model.get("clsNameWordModel") != model.get("clsNameWordReal"):
+        msg = (f"class name: typedpy calls the class {impl.get('cls_name_real')!r} (in [\\w.]+: {model.get('clsNameWordReal')}), "
+               f"the model (Lean derivedName) {model.get('clsNameModel')!r} (in [\\w.]+: {model.get('clsNameWordModel')}) "
+               f"for {case['via']} of {case['cls']['name']!r}")
     if case["mode"] == "construct" and (model.get("flat") or model.get("path")):
         msg = msg or S.construct_correspondence(case, impl, model)
     if case["mode"] == "deser" and (model.get("flat") or model.get("path")):
